@@ -18,17 +18,17 @@ ObsOf(o) ==
   [script |-> Script, xall |-> ExecuteAll, rpc |-> o.rpc, cpc |-> o.cpc, unpaused |-> o.unpaused,
    stopf |-> o.stopf, final |-> o.final, q |-> o.q, executed |-> o.executed, reported |-> o.reported,
    consumed |-> o.consumed, queued |-> Range(o.queued), nbefore |-> o.nbefore, nafter |-> o.nafter,
-   cyclesAfterPause |-> o.cap, raced |-> raced]
+   cyclesAfterPause |-> o.cap, raced |-> raced, ck |-> o.ck]
 
 Same(o) ==
   /\ o.rpc = rpc /\ o.cpc = cpc /\ o.unpaused = unpaused /\ o.stopf = stopf /\ o.final = final
   /\ o.q = q /\ o.executed = executed /\ o.reported = reported /\ o.consumed = consumed
   /\ Range(o.queued) = queued /\ o.nbefore = nbefore /\ o.nafter = nafter /\ o.itime = itime
-  /\ o.clk = clk /\ o.inited = inited
+  /\ o.clk = clk /\ o.inited = inited /\ o.ck = ck
 
 TInit ==
   /\ tid \in DOMAIN Traces /\ nd = 0 /\ div = FALSE
-  /\ InitRest /\ Script = Traces[tid].script /\ ExecuteAll = Traces[tid].xall
+  /\ Script = Traces[tid].script /\ ExecuteAll = Traces[tid].xall /\ InitRest
 
 Visit(k) ==
   LET N == Tr1.nodes[k] IN
